@@ -39,7 +39,11 @@ def _get_growth(model: Model) -> Tuple[float, str]:
     try:
         if "moma_old_objective" in model.solver.variables:
             model.slim_optimize()
-            growth = model.solver.variables.moma_old_objective.primal
+            if model.solver.status == "optimal":
+                growth = model.solver.variables.moma_old_objective.primal
+            else:
+                # no minimal-adjustment solution: the primal value is stale
+                growth = float("nan")
         else:
             growth = model.slim_optimize()
     except SolverError:
